@@ -14,6 +14,12 @@ package nexus
 //@     invariant [one_name_per_tree_string] len(treenames) == len(treestrings)
 //@     decreases pm(p)
 //@   ensures [trees_flag_means_at_least_one_tree] result1 == nil && result0.HasTrees ==> len(result0.trees) > 0 && (forall k int :: {result0.trees[k]} 0 <= k && k < len(result0.trees) ==> result0.trees[k] != nil)
+//@   loop 2
+//@     complete [all_iterations_no_early_exit]
+//@   loop 3
+//@     complete [all_iterations_no_early_exit]
+//@   loop 4
+//@     complete [all_iterations_no_early_exit]
 
 // the only writer of HasTrees: the flag is set together with the first tree
 //@ func (*io/nexus.Nexus).AddTree
@@ -26,6 +32,8 @@ package nexus
 //@ func (*io/nexus.Nexus).IterateTrees
 //@   requires n != nil
 //@   assigns nothing
+//@   loop 1
+//@     complete [all_iterations_no_early_exit]
 
 //@ func (*io/nexus.Nexus).FirstTree
 //@   requires n != nil
@@ -277,3 +285,9 @@ package nexus
 //@   loop 2
 //@     complete [all_iterations_no_early_exit]
 //@     step [identifiers_are_handed_out_in_sequence] next(nbTax) == nbTax + (has(taxLabelsMap, tip) == atHead(has(taxLabelsMap, tip)) ? 0 : 1)
+//@   loop 1
+//@     complete [all_iterations_no_early_exit]
+//@   loop 3
+//@     complete [all_iterations_no_early_exit]
+//@   loop 4
+//@     complete [all_iterations_no_early_exit]
